@@ -7,7 +7,7 @@
    refuted for deadline-free waits (last theorem) and not proved otherwise. *)
    Every statement holds in every state reachable under any scheduler, any number of client threads and
    background serving threads, any order of answers by the peer, with nondeterministic timeouts. *)
-From V Require Import lib.Base model.Serve proofs.ServeP proofs.ServeTie gen.Gen_serve.
+From V Require Import lib.Base model.Serve proofs.ServeP proofs.ServeF proofs.ServeTie gen.Gen_serve.
 
 Section C13.
 Variable servers : nat -> bool.
@@ -69,6 +69,37 @@ Print Assumptions c13_return_means_own_reply.
 Print Assumptions c13_seq_unique.
 Print Assumptions c13_no_lost_wakeup.
 Print Assumptions c13_no_deadlock.
+
+(* 5. no state is a trap ("never ... strand a message", for every reachable state rather than for sampled schedules; proofs/ServeF.v).
+      Wherever the execution has got to - whoever holds the receive lock, wherever the reply to a thread's request is (not sent yet,
+      in the stream behind other frames, in another thread's hand, already dispatched, dropped as late) - there is a continuation made
+      of thread steps, timeouts of blocked threads and the peer's answer ONLY ([quiet]: the clock passes no further expiry) after
+      which that thread has left wait(): it has Returned - necessarily with the reply to its own request, c13_return_means_own_reply -
+      or, only if its own expiry had ALREADY passed in s, it has given up. In particular a request whose expiry has not passed can
+      always still complete. This is possibility (the theorem exhibits a schedule: a lexicographic measure on where the reply is,
+      the length of the stream and the lock holder's position decreases); a guarantee under every scheduler is false for waits
+      without a deadline: c13_completion_refuted_without_deadline below. *)
+Theorem c13_no_state_is_a_trap : forall servers s w q, reach (init servers) s ->
+  myseq (thrs s w) = Some q -> in_loop (tpc (thrs s w)) = true ->
+  exists evs s', ServeF.runl s evs = Some s' /\ (forall e, In e evs -> quiet (fst e))
+    /\ (tpc (thrs s' w) = Returned \/ (tpc (thrs s' w) = TimedOut /\ expd s q = true)).
+Proof.
+  intros servers s w q R. apply no_trap; [exact (invA_reach _ _ R)|exact (invB_reach _ _ R)|exact (invD_reach _ _ R)].
+Qed.
+Print Assumptions c13_no_state_is_a_trap.
+Theorem c13_unexpired_request_can_still_complete : forall servers s w q, reach (init servers) s ->
+  myseq (thrs s w) = Some q -> in_loop (tpc (thrs s w)) = true -> expd s q = false ->
+  exists evs s', ServeF.runl s evs = Some s' /\ tpc (thrs s' w) = Returned /\ ready s' q = true.
+Proof.
+  intros servers s w q R Hm Hl He.
+  destruct (c13_no_state_is_a_trap servers s w q R Hm Hl) as (evs & s' & Hr & Hq & [Hf|[_ X]]); [|congruence].
+  exists evs, s'. split; [exact Hr|]. split; [exact Hf|].
+  assert (IC : InvC s') by (apply (invC_reach servers); exact (ServeF.runl_reach _ evs s s' R Hr)).
+  destruct (IC w Hf) as (q' & Hm' & Hr').
+  rewrite (quiet_run_myseq evs s s' w Hq Hr), Hm in Hm'. inversion Hm'; subst q'. exact Hr'.
+Qed.
+Print Assumptions c13_unexpired_request_can_still_complete.
+(* non-vacuity: the stalled state of c13_completion_refuted_without_deadline is not a trap either - W's own poll timeout gets it out *)
 
 Theorem c13_program_is_current : Gen_serve.serve_prog = Serve.serve_prog /\ Gen_serve.call_sets_obj_before_ready = true
   /\ Gen_serve.callback_is_popped = true /\ Gen_serve.register_before_send = true /\ Gen_serve.seq_is_atomic_counter = true.
